@@ -86,8 +86,10 @@ def run_case(case):
             bump('raised:' + mech)
             return
         bump('write-ok')
+        # "written successfully": the file must be well-formed physically AND every record must come back whole
         oracle.check_c01(run)
-        for v in run.by_prop('C01'):
+        oracle.check_c02(run)
+        for v in run.by_prop('C01') + run.by_prop('C02'):
             vio.append({'prop': PROP, 'kind': 'written-file-malformed', 'mech': v.mech, 'detail': f'{what}: {v.detail}'})
 
     def small_spec(mx, rows=2, dtype='<f8', width=None, chname='CH1'):
@@ -98,7 +100,7 @@ def run_case(case):
     k = case['kind']
     if k == 'mx':
         for mx in case['mxs']:
-            run = harness.execute(small_spec(mx), want_taps=False)
+            run = harness.execute(small_spec(mx), want_taps=True)
             if mx < 32:
                 bump('mx-20..30')
             if mx == 32:
@@ -135,7 +137,7 @@ def run_case(case):
             kk = len(sp['ops'])
             sp['ops'].append(gen.nf_op('N' * nl))
             sp['ops'].append(gen.nf_data_op(kk, bytes((i * 5 + 1) & 0xFF for i in range(pl))))
-            run = harness.execute(sp, want_taps=False)
+            run = harness.execute(sp, want_taps=True)
             if nl + 3 + pl < 12:
                 bump('body-lt-12')
             if (nl + 3 + pl) % 2:
@@ -154,7 +156,7 @@ def run_case(case):
                 sp['ops'][0]['name'] = nm
             else:
                 sp['ops'][1]['set_name'] = nm
-            run = harness.execute(sp, want_taps=False)
+            run = harness.execute(sp, want_taps=True)
             if nl == 255:
                 bump('name-255')
             if nl >= 128:
@@ -183,7 +185,7 @@ def run_case(case):
         sp['ops'].append(gen.nf_op('N' * r.choice([1, 2, 3, 9])))
         for j in range(r.randint(0, 4)):
             sp['ops'].append(gen.nf_data_op(kk, gen.payload_bytes(r, r.choice([0, 1, 2, 3, 5, 8, 9, 20, mx, 3 * mx + 1]), j)))
-        run = harness.execute(sp, want_taps=False)
+        run = harness.execute(sp, want_taps=True)
         if mx < 32:
             bump('mx-20..30')
         judge(run, f'random:{"lt32" if mx < 32 else "ge32"}:{dt}:{width}', f'random small spec, record length {mx}')
